@@ -13,7 +13,11 @@ structure ReconfSt where
 def parseCfgR (comp caches ups locs srvs : String) : Option Cfg := do
   let split (s : String) : List String := if s = "-" then [] else s.splitOn ";"
   let comp ← (split comp).mapM fun e => match e.splitOn "|" with
-    | [n, g, b] => do pure (← unhex n, (← g.toInt?), (← b.toInt?))
+    | [n, g, b] => do
+      -- "x" = the level is not configured: a new service keeps the library default for it
+      let gl ← if g = "x" then some defaultLevels.1 else g.toInt?
+      let bl ← if b = "x" then some defaultLevels.2 else b.toInt?
+      pure (← unhex n, gl, bl)
     | _ => none
   let caches ← (split caches).mapM fun e => match e.splitOn "|" with
     | [n, sz] => do pure (← unhex n, ← sz.toNat?)
@@ -75,6 +79,14 @@ def judgeReconf (st : ReconfSt) (fields : List String) : ReconfSt × String :=
     if comp = Reconfig.init.compress then ({ active := true, s := s0 }, "ok begin 0")
     else ({ active := false }, s!"DIFF reconf start-up slate differs from the model's init")
   | ["end"] => ({}, "ok end 0")
+  | ["listen", cfg0, obs0, cfg1, obs1] =>
+    -- real listeners: before the update exactly the configured servers accept connections, after it (and the
+    -- graceful-close period) exactly the servers of the final configuration do
+    let t0 := if obs0 = cfg0 then "" else " TRIP not_listening_as_configured"
+    let removedAlive := (List.zip (List.zip cfg0.toList cfg1.toList) obs1.toList).any fun ((a, b), o) => a == '1' && b == '0' && o == '1'
+    let t1 := if removedAlive then " TRIP removed_still_listening"
+              else if obs1 ≠ cfg1 then " TRIP not_listening_as_configured" else ""
+    (st, s!"ok listen 1{t0}{t1}")
   | "invalid" :: _ => (st, "BADLINE reconf generated an invalid configuration")
   | ["update", comp, caches, ups, locs, srvs, "=>", obsImpl] =>
     if !st.active then (st, "ok skipped 0") else
